@@ -242,33 +242,107 @@ Section Dialect.
     if has_multiple_statements sql then None else classify_stripped (strip_quoted sql).
 End Dialect.
 
-(* ---------------------------------------------------------------- cli/sqlite3.py classify *)
+(* ---------------------------------------------------------------- cli/sqlite3.py (as repaired by d0eb2f8) *)
 Definition is_dash (t : str) : bool := prefixb $"-" t.
 
-(* the while loop of lines 37-109 on tokens[1:]; returns sql_parts *)
-Fixpoint sqlite3_parts (ts : list str) (filename_seen : bool) : list str :=
+(* --- the three guards, each a regular-expression search over the raw argument --- *)
+
+(* _TCL_VARIABLE = [$@:#](?:[A-Za-z0-9_$\x80-\U0010ffff]|::)*\(
+   After the first character the two alternatives of the group start with different characters and "(" is in
+   neither, so the match is deterministic: no backtracking can succeed where the greedy run fails. *)
+Definition tcl_first (c : N) : bool := mem_ch c [36; 64; 58; 35].
+Definition tcl_idc (c : N) : bool :=
+  (N.leb 65 c && N.leb c 90) || (N.leb 97 c && N.leb c 122) || (N.leb 48 c && N.leb c 57) ||
+  N.eqb c 95 || N.eqb c 36 || N.leb 128 c.       (* \x80-\U0010ffff: every code point from 0x80 up *)
+Fixpoint tcl_body (s : str) : bool :=
+  match s with
+  | [] => false
+  | c :: r =>
+      if N.eqb c 40 then true
+      else if tcl_idc c then tcl_body r
+      else if N.eqb c 58 then match r with d :: r' => if N.eqb d 58 then tcl_body r' else false | [] => false end
+      else false
+  end.
+Definition tcl_at (s : str) : bool := match s with c :: r => tcl_first c && tcl_body r | [] => false end.
+Fixpoint tcl_search (s : str) : bool :=
+  match s with [] => false | _ :: r => tcl_at s || tcl_search r end.
+
+(* re.IGNORECASE on the literal letters: the table lists, per letter, the code points it matches *)
+Fixpoint icase_set (l : N) (tbl : list (N * list N)) : list N :=
+  match tbl with [] => [l] | (k, v) :: r => if N.eqb k l then v else icase_set l r end.
+Definition icase_eq (l x : N) : bool := mem_ch x (icase_set l RE_ICASE).
+Fixpoint icase_prefix (lit s : str) : option str :=      (* the text after the literal *)
+  match lit, s with
+  | [], _ => Some s
+  | l :: lit', x :: s' => if icase_eq l x then icase_prefix lit' s' else None
+  | _ :: _, [] => None
+  end.
+Fixpoint first_icase (lits : list str) (s : str) : option str :=
+  match lits with
+  | [] => None
+  | l :: r => match icase_prefix l s with Some t => Some t | None => first_icase r s end
+  end.
+Definition starts_nonword (s : str) : bool := match s with [] => true | c :: _ => negb (re_word c) end.
+
+(* a regular expression that begins with \b and a letter, searched from every position:
+   [prev_word] says whether the character before the position is a \w character *)
+Fixpoint search_b (at_pos : str -> bool) (s : str) (prev_word : bool) : bool :=
+  match s with
+  | [] => false
+  | c :: r => (negb prev_word && at_pos s) || search_b at_pos r (re_word c)
+  end.
+
+(* _SHELL_FUNCTION = \b(?:writefile|edit|load_extension)\s*\(   IGNORECASE *)
+Definition shell_fn_at (s : str) : bool :=
+  match first_icase SQLITE3_SHELL_FUNCTIONS s with
+  | Some t => match lstrip_p py_space t with 40 :: _ => true | _ => false end
+  | None => false
+  end.
+Definition shell_fn_search (s : str) : bool := search_b shell_fn_at s false.
+
+(* _VACUUM = \bvacuum\b   IGNORECASE *)
+Definition vacuum_at (s : str) : bool :=
+  match icase_prefix $"vacuum" s with Some t => starts_nonword t | None => false end.
+Definition vacuum_search (s : str) : bool := search_b vacuum_at s false.
+
+(* _classify_sql *)
+Definition classify_sql (part : str) : option bool :=
+  if tcl_search part || shell_fn_search part then None else is_readonly_sql [] SQLITE_WRITE part.
+
+(* --- the option loop (lines 50-128) on tokens[1:]: (sql_parts, help_flag, readonly_flag, cmd_seen) --- *)
+Definition scan_t := (list str * bool * bool * bool)%type.
+Definition scan_nil : scan_t := ([], false, false, false).
+Definition scan_add (ps : list str) (h r c : bool) (x : scan_t) : scan_t :=
+  let '(ps0, h0, r0, c0) := x in (ps ++ ps0, h || h0, r || r0, c || c0).
+
+Fixpoint sqlite3_scan (ts : list str) (filename_seen : bool) : scan_t :=
   match ts with
-  | [] => []
+  | [] => scan_nil
   | t :: r =>
-      if mem_str t SQLITE3_NOARG_FLAGS then sqlite3_parts r filename_seen
+      if mem_str t SQLITE3_NOARG_FLAGS then
+        scan_add [] (mem_str t SQLITE3_HELP_FLAGS) (mem_str t SQLITE3_RO_FLAGS) false (sqlite3_scan r filename_seen)
       else if mem_str t SQLITE3_ONEARG_FLAGS then
         match r with
-        | [] => []
-        | x :: r' => (if str_eqb t $"-cmd" then [x] else []) ++ sqlite3_parts r' filename_seen
+        | [] => scan_nil
+        | x :: r' =>
+            if str_eqb t $"-cmd" then scan_add [x] false false true (sqlite3_scan r' filename_seen)
+            else sqlite3_scan r' filename_seen
         end
       else if str_eqb t $"-lookaside" then
         match r with
-        | _ :: _ :: r' => sqlite3_parts r' filename_seen
-        | _ => []
+        | _ :: _ :: r' => sqlite3_scan r' filename_seen
+        | _ => scan_nil
         end
-      else if is_dash t then sqlite3_parts r filename_seen
-      else if negb filename_seen then sqlite3_parts r true
-      else t :: sqlite3_parts r true
+      else if is_dash t then scan_add [] (str_eqb t $"--help") false false (sqlite3_scan r filename_seen)
+      else if negb filename_seen then sqlite3_scan r true
+      else scan_add [t] false false false (sqlite3_scan r true)
   end.
+Definition sqlite3_parts (ts : list str) (filename_seen : bool) : list str :=
+  let '(ps, _, _, _) := sqlite3_scan ts filename_seen in ps.
 
 Definition is_true (o : option bool) : bool := match o with Some true => true | _ => false end.
 Definition is_false (o : option bool) : bool := match o with Some false => true | _ => false end.
-(* lines 116-122 *)
+(* all / any *)
 Definition combine_results (results : list (option bool)) : option bool :=
   if forallb is_true results then Some true
   else if existsb is_false results then Some false
@@ -276,11 +350,18 @@ Definition combine_results (results : list (option bool)) : option bool :=
 
 Definition sqlite3_sql (part : str) : option bool := is_readonly_sql [] SQLITE_WRITE part.
 
+(* what keeps the read-only-mode shortcut from applying *)
+Definition acts_anyway (p : str) : bool := prefixb $"." p || shell_fn_search p || vacuum_search p.
+
+(* the early returns: -init anywhere; help/version in option position and no -cmd; -readonly/-safe in option
+   position and no argument that acts without writing the database *)
 Definition sqlite3_shortcut (tokens : list str) : option verdict :=
-  if existsb (fun t => mem_str t SQLITE3_HELP_FLAGS) tokens then Some Allow
-  else if mem_str $"-readonly" tokens || mem_str $"-safe" tokens then Some Allow
-  else if mem_str $"-init" tokens then Some Ask
-  else None.
+  if mem_str $"-init" tokens then Some Ask
+  else
+    let '(parts, help_flag, readonly_flag, cmd_seen) := sqlite3_scan (tl tokens) false in
+    if help_flag && negb cmd_seen then Some Allow
+    else if readonly_flag && negb (existsb acts_anyway parts) then Some Allow
+    else None.
 
 Definition sqlite3_classify (tokens : list str) : verdict :=
   match sqlite3_shortcut tokens with
@@ -288,6 +369,6 @@ Definition sqlite3_classify (tokens : list str) : verdict :=
   | None =>
       match sqlite3_parts (tl tokens) false with
       | [] => Ask
-      | parts => if is_true (combine_results (map sqlite3_sql parts)) then Allow else Ask
+      | parts => if is_true (combine_results (map classify_sql parts)) then Allow else Ask
       end
   end.
